@@ -35,6 +35,8 @@ type c16Case struct {
 	Requests []lreq    `json:"requests"`
 	// Fallback hosts (bases mode): each request is additionally sent path-style with this Host
 	FallbackHost string `json:"fallbackHost,omitempty"`
+	// Auto: both servers create buckets on demand (auto-bucket option)
+	Auto bool `json:"auto,omitempty"`
 }
 
 var reLastMod = regexp.MustCompile(`<LastModified>[^<]*</LastModified>`)
@@ -59,13 +61,20 @@ func c16Norm(r *s3x.Resp) string {
 
 func c16Opts(cs c16Case) backends.Options {
 	if cs.Mode == "host" {
-		return backends.Options{HostBucket: true}
+		return backends.Options{HostBucket: true, AutoBucket: cs.Auto}
 	}
-	return backends.Options{HostBases: cs.Bases, HostBucket: cs.Mode == "both"}
+	return backends.Options{HostBases: cs.Bases, HostBucket: cs.Mode == "both", AutoBucket: cs.Auto}
+}
+
+// c16AutoModes: the addressing options next to the auto-bucket option (twin streams only)
+var c16AutoModes = []c16Case{
+	{Mode: "host", Base: "s3.test", Auto: true},
+	{Mode: "bases", Bases: []string{"s3.test"}, Base: "s3.test", Auto: true},
+	{Mode: "both", Bases: []string{"other.example", "s3.test:9000"}, Base: "s3.test:9000", Auto: true},
 }
 
 func c16Exec(cs c16Case) (ds []disc, sent int) {
-	a := backends.Must(backends.Mem, backends.Options{})
+	a := backends.Must(backends.Mem, backends.Options{AutoBucket: cs.Auto})
 	defer a.Close()
 	b := backends.Must(backends.Mem, c16Opts(cs))
 	defer b.Close()
@@ -403,7 +412,7 @@ func TestC16(t *testing.T) {
 	runProp(t, propDef{
 		ID:    "C16",
 		Level: "exploration",
-		Rule: "cases = (host-bucket option | host-bucket-base list with/without port, one/several bases, setup program, request stream); twin deterministic stacks (fixed clock, fixed version seed): every logical request of the routed-surface grammar (biased to well-formed, bucket names single DNS labels) " +
+		Rule: "cases = (host-bucket option | host-bucket-base list with/without port, one/several bases, with or without the auto-bucket option, setup program, request stream); twin deterministic stacks (fixed clock, fixed version seed): every logical request of the routed-surface grammar (biased to well-formed, bucket names single DNS labels) " +
 			"is sent as /<bucket>/<key>?q to the path-style stack and as Host: <bucket>.<base> + /<key>?q to the host-style stack; responses (status, headers, body; LastModified and Location normalised, Location format checked separately) and final states must be equal; " +
 			"hosts that are not <single label>.<base> must be routed path-style; extra leading/trailing slashes must not change the addressed bucket/key; non-trivial = a request with an object key and >= 1 sub-resource, or a fallback host; distinct by (mode, request)",
 		Replay: c16Replay,
@@ -460,6 +469,9 @@ func c16FallbackCandidates(cs c16Case) []string {
 func c16Run(t *testing.T, c *evid.Collector) {
 	record := func(check string, cs c16Case, ds []disc, sent int, src string) bool {
 		labels := []string{"mode:" + cs.Mode, "src:" + src, "check:" + check}
+		if cs.Auto {
+			labels = append(labels, "auto-bucket")
+		}
 		nt := false
 		for _, l := range cs.Requests {
 			if l.Key != "" && len(l.Query) > 0 {
@@ -542,6 +554,17 @@ func c16Run(t *testing.T, c *evid.Collector) {
 			ds, sent := c16Exec(cs)
 			record("twin", cs, ds, sent, "fixed-service-looking-keys")
 		}
+		// servers that create buckets on demand do so for the same names in either form of addressing
+		for _, m := range c16AutoModes {
+			cs := m
+			cs.Setup = setup
+			for _, bn := range []string{"fresh-bucket", "ab", "x", "UPPER", "My_Bucket", "a_b", "xn--0", "bk0"} {
+				cs.Requests = append(cs.Requests, lreq{Method: "PUT", Bucket: bn, Key: "obj", Body: []byte("into " + bn), Family: "putObject"}, lreq{Method: "GET", Bucket: bn, Key: "obj", Family: "getObject"},
+					lreq{Method: "GET", Bucket: bn, Family: "listBucket"}, lreq{Method: "HEAD", Bucket: bn + "-2", Key: "obj", Family: "headObject"}, lreq{Method: "DELETE", Bucket: bn, Key: "obj", Family: "deleteObject"})
+			}
+			ds, sent := c16Exec(cs)
+			record("twin", cs, ds, sent, "fixed-auto-bucket")
+		}
 		for _, m := range c16Modes {
 			cs := m
 			cs.Setup = setup
@@ -572,6 +595,9 @@ func c16Run(t *testing.T, c *evid.Collector) {
 	}
 	rapidRun(t, "twin", evid.Scale(2500, 40000), func(rt *rapid.T) {
 		cs := rapid.SampledFrom(c16Modes).Draw(rt, "mode")
+		if rapid.IntRange(0, 5).Draw(rt, "auto") == 0 {
+			cs = rapid.SampledFrom(c16AutoModes).Draw(rt, "automode")
+		}
 		cs.Setup = setup
 		// generator context from a scratch run of the setup
 		scratch := backends.Must(backends.Mem, backends.Options{})
